@@ -81,6 +81,18 @@ Theorem sparse_replay_record_id : forall sh h rs, wf_shape sh -> chain sh (fresh
 Proof. exact DeltaFacts.sparse_replay_record_id_gen. Qed.
 Print Assumptions sparse_replay_record_id.
 
+(* Erasing a key and re-creating it within one cycle is NETTED by the dictionary (intended: the
+   pending-erase slot is resurrected with its child, docs time_series.rst "Slot lifetime"): the
+   live state is the old dictionary - the same child with its contents - merely touched; the
+   captured delta is empty and the committed value unchanged, so value and delta agree and the
+   only thing a replay cannot re-create is that empty tick itself (finding B). *)
+Theorem erase_recreate_in_one_cycle_nets : forall e m v items k c,
+  good (TSD e) (NDict m v items) -> get k items = Some (clean_flags, c) ->
+  let live := dict_at e k (dict_erase k (NDict m v items)) in
+  capture (TSD e) live = DDict [] [] /\ commit (TSD e) live = NDict false true items.
+Proof. exact DeltaFacts.erase_recreate_delta_empty. Qed.
+Print Assumptions erase_recreate_in_one_cycle_nets.
+
 (* For sets the hypothesis [tick] is not an assumption on the history at all: EVERY non-empty
    sequence of add / remove / touch / clear calls on a good state is a [tick] — or it is exactly
    an empty tick on an already valid set (finding B below), which leaves the set as it was. *)
